@@ -117,13 +117,17 @@ pub fn gen_case(t: &mut Tape, excl: &[usize]) -> Case {
     // a `&mut self` method next to the `&self` ones (static selection: the block's fn still takes `&impl Deps`)
     let mut_method = !dynamic && t.chance(1, 4);
     let n_targets = t.range(2, 3);
-    let at = if use_async_trait { "#[::async_trait::async_trait]\n" } else { "" };
+    // dynamic selection of an async trait may opt out of Send futures as well: `?Send` + `#[async_trait(?Send)]`
+    let maybe_send_dyn = dynamic && any_async && t.chance(1, 3);
+    let at_attr = if maybe_send_dyn { "#[::async_trait::async_trait(?Send)]" } else { "#[::async_trait::async_trait]" };
+    let at_owned = if use_async_trait { format!("{at_attr}\n") } else { String::new() };
+    let at = at_owned.as_str();
     let trait_attr = if dynamic { "TrImpl, delegate_by = ref".to_string() } else { "TrImpl, delegate_by = DelegateTr".to_string() };
     let trait_attr = if t.chance(1, 5) { format!("pub {trait_attr}") } else { trait_attr };
     // options that must not influence the delegation
     let mut trait_attr = trait_attr;
     let maybe_send = any_async && !use_async_trait && t.chance(1, 3);
-    if maybe_send {
+    if maybe_send || maybe_send_dyn {
         trait_attr.push_str(", ?Send");
     }
     // ... and then a block's futures need not be Send (static selection only: `dyn TrImpl<Self> + Sync` providers stay Send-agnostic)
@@ -176,7 +180,7 @@ pub fn gen_case(t: &mut Tape, excl: &[usize]) -> Case {
         };
         src.push_str(&format!("pub struct X{x};\n/*GEN*/ #[::entrait::entrait{}]\n", if dynamic { "(ref)" } else { "" }));
         if use_async_trait {
-            src.push_str("/*GEN*/ #[::async_trait::async_trait]\n");
+            src.push_str(&format!("/*GEN*/ {at_attr}\n"));
         }
         src.push_str(&format!("/*GEN*/ impl TrImpl for X{x} {{\n/*TWIN*/ impl X{x} {{\n"));
         for m in &block_methods {
@@ -208,8 +212,11 @@ pub fn gen_case(t: &mut Tape, excl: &[usize]) -> Case {
     for a in 0..n_apps {
         if dynamic {
             let dyn_ty = if any_async { "dyn TrImpl<Self> + Sync" } else { "dyn TrImpl<Self>" };
+            // the other flavour of the trait object leads to a *different* block: it is not the one `Impl<T>` has to ask for
+            let decoy_ty = if any_async { "dyn TrImpl<Self>" } else { "dyn TrImpl<Self> + Sync" };
+            let b = (a + 1) % n_targets;
             src.push_str(&format!(
-                "pub struct A{a} {{ pub pad: u64, pub target: X{a} }}\n/*GEN*/ impl AsRef<{dyn_ty}> for A{a} {{ fn as_ref(&self) -> &({dyn_ty} + 'static) {{ &self.target }} }}\nfn mk_a{a}() -> A{a} {{ A{a} {{ pad: {a}, target: X{a} }} }}\n"
+                "pub struct A{a} {{ pub pad: u64, pub target: X{a}, pub decoy: X{b} }}\n/*GEN*/ impl AsRef<{dyn_ty}> for A{a} {{ fn as_ref(&self) -> &({dyn_ty} + 'static) {{ &self.target }} }}\n/*GEN*/ impl AsRef<{decoy_ty}> for A{a} {{ fn as_ref(&self) -> &({decoy_ty} + 'static) {{ &self.decoy }} }}\nfn mk_a{a}() -> A{a} {{ A{a} {{ pad: {a}, target: X{a}, decoy: X{b} }} }}\n"
             ));
         } else {
             src.push_str(&format!("pub struct A{a} {{ pub pad: u64 }}\n/*GEN*/ impl DelegateTr<Self> for A{a} {{ type Target = X{a}; }}\nfn mk_a{a}() -> A{a} {{ A{a} {{ pad: {a} }} }}\n"));
@@ -282,6 +289,9 @@ pub fn gen_case(t: &mut Tape, excl: &[usize]) -> Case {
     }
     if not_send_blocks {
         classes.push("maybe_send_with_not_send_block_futures");
+    }
+    if maybe_send_dyn {
+        classes.push("dynamic_async_maybe_send");
     }
     if n_targets >= 3 {
         classes.push("three_targets");
